@@ -2,6 +2,7 @@
 """Apply each seeded defect to /repo, run every quick check, record which fire, restore /repo.
 usage: tools/seedeval.py <dir-with-seeds> [ID ...]"""
 import json, os, subprocess, sys
+ENV = dict(os.environ, TF_OUT="/tmp/tfout-scratch")
 root = sys.argv[1]
 only = set(sys.argv[2:])
 ALL = ["C%02d" % i for i in range(1, 21)]
@@ -18,7 +19,7 @@ for d in sorted(os.listdir(root)):
     fired = {}
     try:
         for c in ALL:
-            r = subprocess.run(["/verif/check", c], capture_output=True, text=True)
+            r = subprocess.run(["/verif/check", c], capture_output=True, text=True, env=ENV)
             if r.returncode != 0:
                 rules = sorted({l.split("rule=")[1].split()[0] for l in r.stdout.splitlines() if "rule=" in l})
                 fired[c] = rules
